@@ -13,9 +13,9 @@ def scratch_root():
     return "/tmp"
 
 class RunResult:
-    __slots__ = ("status", "wstatus", "hist", "result", "stderr", "plan")
+    __slots__ = ("status", "wstatus", "hist", "result", "stderr", "plan", "aux")
     def __init__(self):
-        self.status = "none"; self.wstatus = 0; self.hist = []; self.result = None; self.stderr = ""; self.plan = None
+        self.status = "none"; self.wstatus = 0; self.hist = []; self.result = None; self.stderr = ""; self.plan = None; self.aux = {}
     @property
     def hash(self):
         return self.result.get("hash") if self.result else None
